@@ -102,10 +102,13 @@ def model_join(rng):
     kinds = []
     for _ in range(r.randint(0, 3)):
         k = r.choice(['model-eq', 'model-eq', 'table-cmp', 'table-cmp', 'table-in', 'model-gt', 'not-model-eq', 'not-table', 'or-mix', 'func-wrapped', 'cross',
-                      'model-between', 'table-between', 'model-in', 'model-isnull', 'model-like', 'table-like'])
+                      'model-between', 'table-between', 'model-in', 'model-isnull', 'model-like', 'table-like', 'model-eq-expr'])
         kinds.append(k)
         if k == 'model-eq':
             conj.append(f"m.{r.choice(['p1', 'p2', 'y'])} = {r.choice(['1', chr(39) + 'v' + chr(39), '2.5'])}")
+        elif k == 'model-eq-expr':
+            conj.append(r.choice(['m.e1 = CAST(5 AS int)', 'm.e2 = 7::int', 'm.e3 = (8)', 'm.e4 = 9 + 0', "m.e5 = DATE '2020-01-01'", 'CAST(1 AS float) = m.e6', 'm.e7 = -1',
+                                  'm.e8 = NULL', 'm.e9 = TRUE', "m.e1 = INTERVAL '1 day'", 'm.e2 = (1, 2)', 'm.e3 = now()']))
         elif k == 'table-cmp':
             conj.append(f't.a {r.choice(["=", ">", "<", ">=", "!="])} {r.choice([1, 2, 3])}')
         elif k == 'table-in':
@@ -151,7 +154,8 @@ def model_join(rng):
         r.shuffle(opts)
         s += ' USING ' + ', '.join(opts)
     elif r.random() < 0.4:
-        opts = r.sample(['a = 1', "m.b = 'x'", 'Mode = 2', 'partition_size = 2', 't.c = 3', 'm.partition_size = 3'], r.randint(1, 2))
+        opts = r.sample(['a = 1', "m.b = 'x'", 'Mode = 2', 'partition_size = 2', 't.c = 3', 'm.partition_size = 3', "m.prompt.template = 'x'", 'x.y.z = 1', 'm.a.b.c = 2',
+                         '`m`.bq = 3', 'm.`d.e` = 4', 'M.Partition_Size = 2', 'engine.args.k = 5'], r.randint(1, 2))
         s += ' USING ' + ', '.join(opts)
     return s, {'kinds': kinds, 'model': model, 'second_table': second}
 
